@@ -40,7 +40,8 @@
 (* do not mention how the sender encodes: any sender whose requests make   *)
 (* the receiver recover the right things satisfies them.  The constant     *)
 (* Fault plants a defect into the model sender; every fault must violate   *)
-(* the invariant named next to it (checked by checks/x03.py, thorough).    *)
+(* the invariant checks/x03.py names for it (all in the thorough tier, two  *)
+(* per run in the quick tier).                                             *)
 (***************************************************************************)
 EXTENDS Integers, Sequences, FiniteSets, TLC
 
